@@ -528,10 +528,13 @@ def _averaging(ctx, chk):
     mod = f.module
     # the append that fills the returned mapping with (series_id, value)
     rets = [n for n in ast.walk(f.node) if isinstance(n, ast.Return) and n.value is not None]
-    if len(rets) != 1 or not isinstance(rets[0].value, ast.Name):
+    rv = rets[0].value if len(rets) == 1 else None
+    if isinstance(rv, ast.Call) and isinstance(rv.func, ast.Name) and rv.func.id == "dict" and len(rv.args) == 1 and not rv.keywords:
+        rv = rv.args[0]          # return dict(mapping): a copy of a defaultdict
+    if not isinstance(rv, ast.Name):
         chk.indeterminate("C12.O5", where_of(f, f.node), "expected a single `return <mapping>`")
         return
-    mname = rets[0].value.id
+    mname = rv.id
     appends = []
     for c in ast.walk(f.node):
         if isinstance(c, ast.Call) and isinstance(c.func, ast.Attribute) and c.func.attr == "append" and len(c.args) == 1:
